@@ -765,8 +765,8 @@ func evalMemberMethodExpr(vm *r.VM, expr *syntax.MemberMethodExpr) (r.Element, e
 			return nil, err
 		}
 
-		// bind yield result
-		if err := vm.DeclareElement(vtag, vlast); err != nil {
+		// bind yield result (read-only, as for （方法）得到X)
+		if err := vm.DeclareConstElement(vtag, vlast); err != nil {
 			return nil, err
 		}
 	}
